@@ -587,45 +587,7 @@ func c04(c *core.Ctx) {
 			c.Check("SaveBlock:TimeBuckets.Add(block.Time, block.Hash)", "value-flow", len(a) == 2 && argHas(a[0], blk("Time")) && argHas(a[1], blk("Hash")), g.Pos(), "the expiry bucket of a block is chosen by the block's own time")
 		}
 
-		// restart: the last MaxTxLifeTime of stable blocks is recorded again
-		nbc := c.Fn("chain.NewBlockChain")
-		itp := c.Method("chain.BlockChain", "initTxPool")
-		mustCall(c, nbc, itp, nil)
-		for _, g := range core.CallsIn(nbc, itp) {
-			a := c4Args(g)
-			ok := len(a) == 3 && argHas(a[0], c.Method("store/protocol.ChainDB", "LoadLatestBlock")) && argHas(a[2], c.FuncObj(pool+".NewTxGuard"))
-			// the same guard object goes into the engine
-			same := false
-			for _, e := range core.CallsIn(nbc, c.FuncObj(cons+".NewDPoVP")) {
-				for _, ea := range e.Common().Args {
-					if ok && ea == a[2] {
-						same = true
-					}
-				}
-			}
-			c.Check("NewBlockChain:initTxPool(latest stable, engine's guard)", "value-flow", ok && same, g.Pos(), "the guard refilled on start is the one handed to the consensus engine, starting from the latest stable block")
-		}
-		ifn := c.Fn("chain.BlockChain.initTxPool")
-		life, _ := constInt(c.Const("chain/params.MaxTxLifeTime"))
-		sv := core.CallsIn(ifn, save)
-		c.Floor("initTxPool/SaveBlock", len(sv), 1)
-		for _, g := range sv {
-			a := c4Args(g)
-			okArg := len(a) == 1 && core.Slice(a[0])[ifn.Params[1]] && argHas(a[0], c.Method("chain.BlockChain", "GetBlockByHeight")) && isParam(ifn, 3, c4Recv(g))
-			c.Check("initTxPool:SaveBlock(stable block and its ancestors)", "value-flow", okArg, g.Pos(), "the walk starts at the given block and continues with blocks loaded by decreasing height, all saved into the given guard")
-			// the only loop condition around it is the life-time window
-			okWin := false
-			for _, ct := range core.Controllers(g) {
-				if core.IsLoopHeaderIf(ct.If) && ct.Taken == 0 {
-					sl := core.Slice(ct.If.Cond)
-					if core.SliceCountCalls(sl, blk("Time")) >= 2 && core.SliceHasIntConst(sl, life) && core.SliceHasOp(sl, token.SUB) && sliceHasCmp(sl, token.LEQ, token.LSS) {
-						okWin = true
-					}
-				}
-			}
-			c.Check("initTxPool?stableTime−block.Time≤MaxTxLifeTime", "quantity-guard", okWin, g.Pos(), "blocks are reloaded as long as they are within MaxTxLifeTime of the stable block")
-			onlyControlledBy(c, "initTxPool:SaveBlock/unconditional", "reloading a block inside the window", g, nil, nilGuardCtrl)
-		}
+		c04GuardReload(c)
 	})
 
 	// -----------------------------------------------------------------------------------------
@@ -1080,7 +1042,7 @@ func c04(c *core.Ctx) {
 			}
 			n := shortFn(cs.Caller)
 			seqO[n]++
-			c.Check("onStableChanged(the block UpdateStable promoted)@"+n+seqSuffix(seqO[n]), "value-flow", ok, cs.Instr.Pos(), "%s hands onStableChanged the block it handed to UpdateStable", n)
+			c.Check("onStableChanged(block-UpdateStable-promoted)@"+n+seqSuffix(seqO[n]), "value-flow", ok, cs.Instr.Pos(), "%s hands onStableChanged the block it handed to UpdateStable", n)
 		}
 	})
 
@@ -1153,4 +1115,57 @@ func constIntOf(v ssa.Value) (int64, bool) {
 		return 0, false
 	}
 	return k.Int64(), true
+}
+
+// c04GuardReload: after a restart the last MaxTxLifeTime of stable blocks is recorded in the replay guard again, every one of them.
+// Evaluated under C04.2 (replay protection) and C08.10 (a restarted node accepts what a node that never stopped accepts).
+func c04GuardReload(c *core.Ctx) {
+	const (
+		typ  = "chain/types"
+		cons = "chain/consensus"
+		pool = "chain/txpool"
+	)
+	blk := func(m string) *types.Func { return c.Method(typ+".Block", m) }
+	save := c.Method(pool+".TxGuard", "SaveBlock")
+	{
+		// restart: the last MaxTxLifeTime of stable blocks is recorded again
+		nbc := c.Fn("chain.NewBlockChain")
+		itp := c.Method("chain.BlockChain", "initTxPool")
+		mustCall(c, nbc, itp, nil)
+		for _, g := range core.CallsIn(nbc, itp) {
+			a := c4Args(g)
+			ok := len(a) == 3 && argHas(a[0], c.Method("store/protocol.ChainDB", "LoadLatestBlock")) && argHas(a[2], c.FuncObj(pool+".NewTxGuard"))
+			// the same guard object goes into the engine
+			same := false
+			for _, e := range core.CallsIn(nbc, c.FuncObj(cons+".NewDPoVP")) {
+				for _, ea := range e.Common().Args {
+					if ok && ea == a[2] {
+						same = true
+					}
+				}
+			}
+			c.Check("NewBlockChain:initTxPool(latest stable, engine's guard)", "value-flow", ok && same, g.Pos(), "the guard refilled on start is the one handed to the consensus engine, starting from the latest stable block")
+		}
+		ifn := c.Fn("chain.BlockChain.initTxPool")
+		life, _ := constInt(c.Const("chain/params.MaxTxLifeTime"))
+		sv := core.CallsIn(ifn, save)
+		c.Floor("initTxPool/SaveBlock", len(sv), 1)
+		for _, g := range sv {
+			a := c4Args(g)
+			okArg := len(a) == 1 && core.Slice(a[0])[ifn.Params[1]] && argHas(a[0], c.Method("chain.BlockChain", "GetBlockByHeight")) && isParam(ifn, 3, c4Recv(g))
+			c.Check("initTxPool:SaveBlock(stable block and its ancestors)", "value-flow", okArg, g.Pos(), "the walk starts at the given block and continues with blocks loaded by decreasing height, all saved into the given guard")
+			// the only loop condition around it is the life-time window
+			okWin := false
+			for _, ct := range core.Controllers(g) {
+				if core.IsLoopHeaderIf(ct.If) && ct.Taken == 0 {
+					sl := core.Slice(ct.If.Cond)
+					if core.SliceCountCalls(sl, blk("Time")) >= 2 && core.SliceHasIntConst(sl, life) && core.SliceHasOp(sl, token.SUB) && sliceHasCmp(sl, token.LEQ, token.LSS) {
+						okWin = true
+					}
+				}
+			}
+			c.Check("initTxPool?stableTime−block.Time≤MaxTxLifeTime", "quantity-guard", okWin, g.Pos(), "blocks are reloaded as long as they are within MaxTxLifeTime of the stable block")
+			onlyControlledBy(c, "initTxPool:SaveBlock/unconditional", "reloading a block inside the window", g, nil, nilGuardCtrl)
+		}
+	}
 }
